@@ -130,6 +130,9 @@ def verify_function(fv):
     declared = {n: t for n, t in c.params}
     for n in real:
         if n not in declared or declared[n] is None:
+            if fv.in_slice():
+                c.params = list(c.params) + [(n, 'Any')]       # slice mode: unannotated parameters are arbitrary values
+                continue
             raise Unsupported('%s: parameter %s has no type in the contract' % (fv.qual, n))
     for n, t in c.params:
         ty = E.parse_ty(t)
@@ -176,6 +179,8 @@ def verify_function(fv):
     fv.ret_ty = E.parse_ty(c.ret) if c.ret else NONE
     for pname, pe in c.requires:
         fv.add_fact(st, fv.truthy(fv.ev(pe, st, True)))
+    for gname, ge in c.global_invariants:
+        fv.add_fact(st, fv.truthy(fv.ev(ge, st, True)))
     for gname, gty in c.ghost_locals.items():
         ty = E.parse_ty(gty)
         init = {'set': P.set_empty, 'seq': P.seq_empty, 'map': P.map_empty}.get(ty.kind)
